@@ -121,6 +121,16 @@ type Result struct {
 	Incidents      []string           `json:"incidents,omitempty"`
 	WallS          float64            `json:"wall_s"`
 	Note           string             `json:"note,omitempty"`
+	// Stuck names the history in flight when the watchdog fired.
+	Stuck *StuckHistory `json:"stuck,omitempty"`
+}
+
+// StuckHistory is a transition that did not finish (hang or memory blow-up).
+type StuckHistory struct {
+	Kind     string   `json:"kind"`
+	Scenario string   `json:"scenario"`
+	Seed     string   `json:"seed"`
+	History  []string `json:"history"`
 }
 
 func (r *Result) Count(name string, n int64) {
@@ -326,6 +336,9 @@ func Explore[W any](sc *Scenario[W], deadline time.Time) *Result {
 
 	InFlight = func() string {
 		return "[" + sc.Name + "] " + strings.Join(names(currentSeed, currentOps, currentExtra), "; ")
+	}
+	InFlightOps = func() (string, []string) {
+		return seeds[currentSeed].Name, names(currentSeed, currentOps, currentExtra)
 	}
 
 	// roots
